@@ -100,6 +100,11 @@ def run(tier, seed, replay=None):
         if v.get("div") or t["n"] < 3:
             continue
         k = t["n"] - 1
+        fin = t["stages"][k]
+        r0, r1 = fin["match"][0], fin["match"][1]
+        # swapping the rows of the first two columns must leave a cell that is not tight (not so in matrices full of ties)
+        if not (r0 > 0 and r1 > 0 and (fin["u"][r1 - 1] + fin["v"][0] != t["matrix"][r1 - 1][0] or fin["u"][r0 - 1] + fin["v"][1] != t["matrix"][r0 - 1][1])):
+            continue
         c = copy.deepcopy(t); c["stages"][k]["u"][0] += 1; sctl.append((c, "Stage.|Final."))
         c = copy.deepcopy(t); c["stages"][k]["match"][0], c["stages"][k]["match"][1] = c["stages"][k]["match"][1], c["stages"][k]["match"][0]; sctl.append((c, "Stage.matched_cell_not_tight|Stage."))
         c = copy.deepcopy(t); c["stages"][1]["match"] = [0] * t["n"]; sctl.append((c, "Stage.not_a_matching"))
